@@ -304,6 +304,31 @@ func dischargeVC(x *Exec, o *Obligation, opts verifyOpts) (Result, bool) {
 		if qr.Status == "unsat" {
 			return qr, disagree
 		}
+		if attempt == 0 {
+			// the VC as generated, quantifiers left to the solvers: when a quantified hypothesis is needed at the
+			// goal's own skolem constants (an invariant carried unchanged, a callee's postcondition used as is),
+			// e-matching finds the instance at once, while enumerating candidate instances below can drown it
+			raw := &Query{Name: o.Name, Assumes: o.Assumes, Goal: o.Goal}
+			rtext := raw.smtlib(false, "z3")
+			rh := sha256.Sum256([]byte("raw" + rtext))
+			rkey := string(rh[:])
+			var rr Result
+			if c, ok := vcCache.Load(rkey); ok {
+				rr = c.(Result)
+			} else {
+				rt := opts.timeout
+				if rt > 4*time.Second {
+					rt = 4 * time.Second
+				}
+				rr = prove(raw, rt)
+				if rr.Status == "unsat" {
+					vcCache.Store(rkey, rr)
+				}
+			}
+			if rr.Status == "unsat" {
+				return rr, disagree
+			}
+		}
 		if attempt == 1 {
 			r = qr
 			qfRes = qr
